@@ -40,6 +40,8 @@ var clockPkgs = []string{
 var pointFuncs = []string{
 	"internal/ingress:Server.ServeHTTP",
 	"internal/ingress:HMACAuth.Verify",
+	"internal/ingress:nonceCache.seenOnceAt",
+	"internal/ingress:nonceCache.seenOnce",
 	"internal/pullapi:Server.Dequeue",
 	"internal/pullapi:Server.AckSingle",
 	"internal/pullapi:Server.AckBatch",
